@@ -1,12 +1,244 @@
-/- Driver family `text`: C06 C07 — text archives.  (stub: replace `family`) -/
+/- Driver family `text`: C06 (round trip, layout) and C07 (ordered map, escaping, dirty flag).
+Line formats are documented in `harness/src/fam/text.rs`. -/
 import Driver.Common
+import MilaModel.Model.TextArchive
+import MilaModel.Spec.TextMap
+import MilaModel.Spec.TextImage
 
 namespace Driver.Text
-open Mila
+open Mila Mila.TextArchive
+
+/-! ### line-protocol helpers -/
+
+def fmtOf : String → Option TextFormat
+  | "S" => some .shiftJIS | "U" => some .unicode | _ => none
+def endianOf : String → Option Endian
+  | "L" => some .little | "B" => some .big | _ => none
+
+def listStr (items : List String) : String :=
+  if items.isEmpty then "~" else String.intercalate "," items
+
+def pairsStr (es : List (Str × Str)) : String :=
+  listStr (es.map (fun p => hexOfBytes p.1 ++ ":" ++ hexOfBytes p.2))
+
+/-- `a:b,c:d` → list of field lists. -/
+def parseList (s : String) : List (List String) :=
+  if s == "~" then [] else (s.splitOn ",").map (fun p => p.splitOn ":")
+
+def parsePairs (s : String) : Option (List (Bytes × Bytes)) :=
+  (parseList s).mapM (fun p =>
+    match p with
+    | [a, b] => do pure ((← bytesOfHex a), (← bytesOfHex b))
+    | _ => none)
+
+/-- value of `key=` in an implementation line -/
+def field (fs : List String) (key : String) : Option String :=
+  (fs.find? (fun f => f.startsWith (key ++ "="))).map (fun f => (f.drop (key.length + 1)).toString)
+
+def c : Codec := sjisSub
+
+/-! ### C06 -/
+
+def modelRt (f : TextFormat) (e : Endian) (title : Str) (entries : List (Str × Str)) : String :=
+  let t := entries.foldl (fun t p => t.setMessage p.1 p.2) ((TextArchive.new f e).setTitle title)
+  match t.serialize c with
+  | .ok bytes =>
+    let head := "ok stored=" ++ pairsStr t.entries ++ " bytes=" ++ hexOfBytes bytes
+    match TextArchive.fromBytes c bytes f e with
+    | .ok p => head ++ " parsed title=" ++ hexOfBytes p.title ++ " entries=" ++ pairsStr p.entries
+        ++ " reser=" ++ (match p.serialize c with
+          | .ok b2 => if b2 == bytes then "same" else "diff"
+          | .err er => "err:" ++ er.name
+          | .panic => "panic")
+    | .err er => head ++ " parse-err " ++ er.name
+    | .panic => "panic"
+  | .err er => "err " ++ er.name
+  | .panic => "panic"
+
+/-- `rtd` (C07 sub-stream): the dirty flag of a parsed archive.  Whether the image re-parses is
+C06's business, so that part of the line is taken from the implementation; by theorem
+`C07.dirty_parsed` the model's parsed archive is never dirty. -/
+def modelRtd (impl : List String) : String :=
+  if impl.getD 1 "" == "ok" && impl.getD 2 "" == "parsed" then "ok parsed dirty=0"
+  else String.intercalate " " (impl.drop 1)
+
+/-- Domain of the Shift-JIS side of C06: NUL-free strings the codec represents losslessly. -/
+def inSjisDomain (s : Str) : Bool :=
+  match c.enc s with
+  | some b => !b.contains 0 && c.dec b == s && !s.contains 0
+  | none => false
+
+/-- Valid UTF-8 of NUL-free scalar values (what a NUL-free Rust `String` is). -/
+def inUnicodeDomain (s : Str) : Bool :=
+  match Utf.utf8Dec s with
+  | some cs => cs.all (fun x => x ≠ 0 && decide (Utf.IsScalar x))
+  | none => false
+
+def oracleRt (f : TextFormat) (e : Endian) (title : Str) (entries : List (Str × Str))
+    (impl : List String) : String :=
+  if impl.getD 1 "" == "panic" then "FAIL panic" else
+  let keys := entries.map (·.1)
+  let uni := f == .unicode
+  -- The archive content is what `get_entries` showed before serialisation (`stored=`); when the
+  -- implementation failed before printing it, what the specification says `set_message` stores.
+  let stored := ((field impl "stored").bind parsePairs).getD
+    (entries.map (fun p => (p.1, Spec.TextMap.unescape p.2)))
+  let dom := keys.eraseDups.length == keys.length && stored.map (·.1) == keys && keys.all inSjisDomain
+    && (!uni || inSjisDomain title)
+    && stored.all (fun p => if uni then inUnicodeDomain p.2 else inSjisDomain p.2)
+  if !dom then "ok skip (outside the property's domain)" else
+  if impl.getD 1 "" != "ok" then "FAIL serialize failed on an in-domain archive" else
+  if impl.getD 4 "" != "parsed" then "FAIL re-parse failed on the archive's own image" else
+  match (field impl "bytes").bind bytesOfHex, (field impl "title").bind bytesOfHex,
+      (field impl "entries").bind parsePairs with
+  | some bytes, some ptitle, some pentries =>
+    if uni && ptitle != title then "FAIL round trip: title differs"
+    else if pentries.map (·.1) != keys then "FAIL round trip: keys or key order differ"
+    else if pentries != stored then "FAIL round trip: a message differs"
+    else match Spec.TextImage.checkFile uni (e == .big) c.dec bytes title stored with
+      | none => "ok"
+      | some why => "FAIL layout: " ++ why
+  | _, _, _ => "FAIL unreadable implementation line"
+
+def parseLabels (s : String) : Option (List (Nat × Str)) :=
+  (parseList s).mapM (fun p =>
+    match p with
+    | [a, b] => do pure ((← a.toNat?), (← bytesOfHex b))
+    | _ => none)
+
+def modelFa (f : TextFormat) (e : Endian) (data : Bytes) (labels : List (Nat × Str)) : String :=
+  let a0 := (BinArchive.new e).allocateAtEnd data.length
+  let r : Res TextArchive := do
+    let a1 ← if data.isEmpty then .ok a0 else a0.writeBytes 0 data
+    let a2 ← labels.foldlM (fun a l => a.writeLabel l.1 l.2) a1
+    TextArchive.fromArchive c a2 f e
+  match r with
+  | .ok p => "ok title=" ++ hexOfBytes p.title ++ " entries=" ++ pairsStr p.entries
+  | .err er => "err " ++ er.name
+  | .panic => "panic"
+
+/-! ### C07 -/
+
+structure St where
+  id : String := ""
+  model : TextArchive := TextArchive.new .unicode .little
+  hist : List Spec.TextMap.Op := []
+  /-- entries the implementation reported after the previous call of this case -/
+  prev : List (Bytes × Bytes) := []
+
+def retUnit := "unit"
+def retOpt : Option Str → String
+  | some m => "some:" ++ hexOfBytes m
+  | none => "none"
+
+def stateLine (t : TextArchive) (ret : String) : String :=
+  "ok r=" ++ ret ++ " title=" ++ hexOfBytes t.title ++ " dirty=" ++ (if t.dirty then "1" else "0")
+    ++ " entries=" ++ listStr (t.entries.map (fun p =>
+      hexOfBytes p.1 ++ ":" ++ hexOfBytes p.2 ++ ":" ++
+        (match t.getMessage p.1 with | some g => hexOfBytes g | none => "~")))
+
+def parseTriples (s : String) : Option (List (Bytes × Bytes × Option Bytes)) :=
+  (parseList s).mapM (fun p =>
+    match p with
+    | [a, b, g] => do
+      pure ((← bytesOfHex a), (← bytesOfHex b), (if g == "~" then none else bytesOfHex g))
+    | _ => none)
+
+open Spec.TextMap in
+/-- The specification judged on the implementation's state line after history `h`
+(`hBefore` = history before this call, `op` = this call, `expectRet` = the return value the
+specification demands, `unchanged` = the call must leave the entries as they were). -/
+def oracleC07 (hBefore : List Op) (op : Option Op) (expectRet : Option String) (unchanged : Bool)
+    (prev : List (Bytes × Bytes)) (impl : List String) : String × List (Bytes × Bytes) :=
+  if impl.getD 1 "" == "panic" then ("FAIL panic", prev) else
+  let h := match op with | some o => hBefore ++ [o] | none => hBefore
+  match field impl "r", (field impl "title").bind bytesOfHex, field impl "dirty",
+      (field impl "entries").bind parseTriples with
+  | some r, some title, some dirty, some triples =>
+    let entries := triples.map (fun t => (t.1, t.2.1))
+    let verdict :=
+      if !checkKeys h (triples.map (·.1)) then "FAIL keys are not the surviving keys in order of first insertion"
+      else if !triples.all (fun t => valueOf h t.1 == some t.2.1) then "FAIL stored value is not the unescaped last message set"
+      else if !triples.all (fun t => t.2.2 == lookupOf h t.1) then "FAIL lookup is not the escaped stored value"
+      else if title != titleOf h then "FAIL title is not the last title set"
+      else if anySet h && dirty != "1" then "FAIL dirty flag clear after a set"
+      else if h.isEmpty && dirty != "0" then "FAIL dirty flag set on a new archive"
+      else if unchanged && entries != prev then "FAIL storing a looked-up message back changed the entries"
+      else match expectRet with
+        | some x => if r == x then "ok" else "FAIL return value of has_message / get_message"
+        | none => "ok"
+    (verdict, entries)
+  | _, _, _, _ => ("FAIL unreadable implementation line", prev)
+
+def stepC07 (st : St) (cf impl : List String) : St × String × String :=
+  let id := cf.headD "?"
+  let bad := (st, "bad-case", "FAIL bad-case")
+  match cf with
+  | [_, "new", f, e] =>
+    match fmtOf f, endianOf e with
+    | some f, some e =>
+      let t := TextArchive.new f e
+      let (v, prev) := oracleC07 [] none none false [] impl
+      ({ id := id, model := t, hist := [], prev := prev }, stateLine t retUnit, v)
+    | _, _ => bad
+  | _ =>
+    if st.id != id then bad else
+    let go (t' : TextArchive) (ret : String) (ops : List Spec.TextMap.Op) (expectRet : Option String)
+        (unchanged : Bool) :=
+      -- `ops`: the spec-level calls this line stands for
+      let hB := st.hist ++ ops.dropLast
+      let (v, prev) := oracleC07 hB ops.getLast? expectRet unchanged st.prev impl
+      ({ st with model := t', hist := st.hist ++ ops, prev := prev }, stateLine t' ret, v)
+    match cf with
+    | [_, "set", k, m] =>
+      let (k, m) := (hexOrBad k, hexOrBad m)
+      go (st.model.setMessage k m) retUnit [.set k m] none false
+    | [_, "del", k] => let k := hexOrBad k; go (st.model.deleteMessage k) retUnit [.del k] none false
+    | [_, "title", t] => let t := hexOrBad t; go (st.model.setTitle t) retUnit [.title t] none false
+    | [_, "has", k] =>
+      let k := hexOrBad k
+      go st.model (if st.model.hasMessage k then "true" else "false") [.has k]
+        (some (if (Spec.TextMap.birth st.hist k).isSome then "true" else "false")) false
+    | [_, "get", k] => let k := hexOrBad k; go st.model (retOpt (st.model.getMessage k)) [.get k]
+        (some (retOpt (Spec.TextMap.lookupOf st.hist k))) false
+    | [_, "setget", k] =>
+      let k := hexOrBad k
+      let got := st.model.getMessage k
+      let t' := match got with | some m => st.model.setMessage k m | none => st.model
+      -- spec side: the value to store back is the one the *specification* says a lookup returns
+      let ops : List Spec.TextMap.Op := match Spec.TextMap.lookupOf st.hist k with
+        | some m => [.get k, .set k m]
+        | none => [.get k]
+      go t' (retOpt got) ops (some (retOpt (Spec.TextMap.lookupOf st.hist k))) true
+    | _ => bad
+
+/-! ### family -/
 
 def family : Family where
-  State := Unit
-  init := ()
-  step := fun _ _ _ => ((), "unimplemented", "FAIL unimplemented")
+  State := St
+  init := {}
+  step := fun st cf impl =>
+    match cf with
+    | [_, "rt", f, e, title, entries] =>
+      match fmtOf f, endianOf e, bytesOfHex title, parsePairs entries with
+      | some f, some e, some title, some entries =>
+        (st, modelRt f e title entries, oracleRt f e title entries impl)
+      | _, _, _, _ => (st, "bad-case", "FAIL bad-case")
+    | [_, "rtd", f, e, title, entries] =>
+      match fmtOf f, endianOf e, bytesOfHex title, parsePairs entries with
+      | some _, some _, some _, some _ =>
+        -- C07: "the dirty flag is clear on a ... parsed archive"
+        let v := if impl.getD 1 "" == "panic" then "FAIL panic"
+          else if impl.getD 2 "" != "parsed" then "ok skip (not parsed)"
+          else if field impl "dirty" == some "0" then "ok" else "FAIL parsed archive is dirty"
+        (st, modelRtd impl, v)
+      | _, _, _, _ => (st, "bad-case", "FAIL bad-case")
+    | [_, "fa", f, e, data, labels] =>
+      match fmtOf f, endianOf e, bytesOfHex data, parseLabels labels with
+      | some f, some e, some data, some labels =>
+        let m := modelFa f e data labels
+        (st, m, if impl.getD 1 "" == "panic" then "FAIL panic" else "ok skip (reader correspondence only)")
+      | _, _, _, _ => (st, "bad-case", "FAIL bad-case")
+    | _ => stepC07 st cf impl
 
 end Driver.Text
